@@ -408,6 +408,8 @@ pub enum RStep {
     },
     /// the link falls silent, times out and is re-opened by the real housekeeping (new socket, reader restarted)
     Reconnect { link: u16 },
+    /// a reload replaces this link's address by a new one (same number of links); readers are synced as the loop does
+    Swap { link: u16 },
 }
 
 #[derive(Debug, Clone, Hash, Serialize, Deserialize)]
@@ -421,6 +423,7 @@ fn reader_strategy() -> impl Strategy<Value = ReaderCase> {
         6 => (any::<u16>(), prop_oneof![2 => 1u16..32, 3 => proptest::sample::select(vec![31u16, 32, 33, 34, 63, 64, 65, 66, 96, 97, 128, 129]), 2 => 32u16..260], 0u8..5, prop_oneof![Just(8u16), Just(40), 2u16..1400])
             .prop_flat_map(|(link, n, internal_every, len)| prop_oneof![3 => Just(0u8), 2 => 1u8..6].prop_map(move |empties| RStep::Burst { link, n, internal_every, len, empties })),
         1 => any::<u16>().prop_map(|link| RStep::Reconnect { link }),
+        1 => any::<u16>().prop_map(|link| RStep::Swap { link }),
     ];
     (1u8..=3, vec(step, 1..5)).prop_map(|(n_links, steps)| ReaderCase { n_links, steps })
 }
@@ -439,6 +442,7 @@ pub fn check_readers(case: &ReaderCase, obs: &mut Obs) -> CheckResult {
     sh.sync_readers();
     sh.pump(1);
     let mut tag = 0u32;
+    let mut swaps = 0u8;
     // run reader tasks and drain passes until `done` or nothing has moved for a few rounds
     let settle = |sh: &mut Shell, got: &mut Vec<Vec<u8>>, want: usize| {
         let mut idle = 0;
@@ -503,6 +507,24 @@ pub fn check_readers(case: &ReaderCase, obs: &mut Obs) -> CheckResult {
                     obs.nontrivial = true;
                     obs.class("burst-over-one-recvmmsg");
                 }
+            }
+            RStep::Swap { link } => {
+                let li = crate::rt::idx(*link, n);
+                swaps += 1;
+                let fresh = crate::engine::shell::link_ip(20 + swaps);
+                let list: Vec<std::net::IpAddr> = sh.st.conns.iter().enumerate().map(|(i, c)| if i == li { fresh } else { c.local_ip }).collect();
+                sh.apply_ips(&list);
+                sh.sync_readers();
+                let Some(ni) = sh.st.conns.iter().position(|c| c.local_ip == fresh) else {
+                    return crate::rt::viol("harness", format!("step {si}: the reload did not add {fresh}"));
+                };
+                // the new link registers through its own socket and reader
+                vensure!(sh.rx_send_link(ni, &[0x92, 0x02]), "harness", "step {si}: cannot send to the new link");
+                let mut sink = Vec::new();
+                settle(&mut sh, &mut sink, 0);
+                vensure!(sh.st.conns[ni].connected, "reader-not-started", "step {si}: a reload replaced one address by another; the REG3 sent to the new link's socket was never processed");
+                obs.nontrivial = true;
+                obs.class("address-swapped-by-reload");
             }
             RStep::Reconnect { link } => {
                 let li = crate::rt::idx(*link, n);
